@@ -119,6 +119,12 @@ def run_property(mod, tier, seed, replay=None):
         if obl["problems"]:
             violations.append(({"kind": "proof", "problems": obl["problems"],
                                 "theorem_or_correspondence": obl.get("file")}, True))
+    chk = None
+    if ok and tier == "thorough" and not replay:
+        chk = build.coqchk(pid)
+        if not chk["ok"]:
+            violations.append(({"kind": "proof", "problems": ["coqchk: rc %s axioms %s %s" % (chk["rc"], chk["axioms"], chk["tail"])],
+                                "theorem_or_correspondence": "coqchk SV.Props.%s" % pid}, True))
     known = [k for k in load_known() if k["property"] == pid]
     samples = []
     seen = set()
@@ -216,12 +222,13 @@ def run_property(mod, tier, seed, replay=None):
         if k.get("status", "open") == "open" and kf_hits.get(k["id"]):
             known_lines.append("KNOWN-FINDING: property=%s %s: %s (%d case(s) this run)" % (pid, k["id"], k["what"], kf_hits[k["id"]]))
     # ----- evidence -----
-    os.makedirs(os.path.join(VERIF, "evidence"), exist_ok=True)
-    os.makedirs(os.path.join(VERIF, "replays"), exist_ok=True)
+    OUT = os.environ.get("VERIF_OUT", VERIF)      # scratch runs (seeded changes) write their evidence elsewhere
+    os.makedirs(os.path.join(OUT, "evidence"), exist_ok=True)
+    os.makedirs(os.path.join(OUT, "replays"), exist_ok=True)
     out_lines = []
     for payload, nofail in violations:
         h = ser.case_hash(payload)
-        rp = os.path.join(VERIF, "replays", "%s-%s.json" % (pid, h))
+        rp = os.path.join(OUT, "replays", "%s-%s.json" % (pid, h))
         json.dump(ser.to_j(payload), open(rp, "w"), indent=1)
         out_lines.append("VIOLATION property=%s replay=%s%s" % (pid, rp, " no-failing-input-found" if nofail else ""))
     ev = {
@@ -243,6 +250,7 @@ def run_property(mod, tier, seed, replay=None):
                                "disagreements": len(k_disagree)},
             "oracle_failures": len(oracle_fail),
             "extraction_crosscheck_vm_compute": xc,
+            "coqchk": chk if chk is not None else "thorough tier only",
             "known_findings": kf_hits,
             "model_calls": ctx._model.calls if ctx._model else 0,
             "exhaustive": bool(getattr(mod, "EXHAUSTIVE", False) and tier == "thorough"),
@@ -252,7 +260,7 @@ def run_property(mod, tier, seed, replay=None):
         "wall_s": round(time.time() - t0, 2),
         "violations": len(violations),
     }
-    json.dump(ev, open(os.path.join(VERIF, "evidence", pid + ".json"), "w"), indent=1)
+    json.dump(ev, open(os.path.join(OUT, "evidence", pid + ".json"), "w"), indent=1)
     for l in known_lines:
         print(l)
     for l in out_lines:
